@@ -44,8 +44,7 @@ use zeroize::Zeroize;
 /// Unlike many other heap-allocated big integer libraries, this type is not
 /// arbitrary precision and will wrap at its fixed-precision rather than
 /// automatically growing.
-#[allow(clippy::derived_hash_with_manual_eq)]
-#[derive(Clone, Hash)]
+#[derive(Clone)]
 pub struct BoxedUint {
     /// Boxed slice containing limbs.
     ///
@@ -265,6 +264,19 @@ impl NonZero<BoxedUint> {
     /// See [`BoxedUint::widen`] for more information, including panic conditions.
     pub fn widen(&self, bits_precision: u32) -> Self {
         NonZero(self.0.widen(bits_precision))
+    }
+}
+
+impl core::hash::Hash for BoxedUint {
+    /// Values of different precision compare equal when they represent the same integer,
+    /// so only the limbs up to the most significant non-zero one are hashed.
+    fn hash<H: core::hash::Hasher>(&self, state: &mut H) {
+        let significant = self
+            .limbs
+            .iter()
+            .rposition(|limb| limb.0 != 0)
+            .map_or(0, |i| i + 1);
+        self.limbs[..significant].hash(state);
     }
 }
 
